@@ -148,6 +148,20 @@ def gen_value(rng, depth):
     return '{' + ws() + (',' + ws()).join(k2 + ws() + ':' + ws() + gen_value(rng, depth - 1) + ws() for k2 in keys) + '}'
 
 
+def in_string(b, i):
+    """byte i of the JSON text b lies inside a string literal"""
+    ins, esc = False, False
+    for j in range(i):
+        c = b[j]
+        if esc:
+            esc = False
+        elif ins and c == 0x5c:
+            esc = True
+        elif c == 0x22:
+            ins = not ins
+    return ins
+
+
 class Prop:
     id = 'C12'
     level = 'proof'
@@ -208,6 +222,18 @@ class Prop:
                 k = rng.randrange(len(b))
                 m = bytes([rng.choice(b' \n{}[],:"\\-+.01eEtrufalsn/x\x01\xc3')])
                 add(b[:k] + m + b[k + 1:], rng.randint(0, 1), 'doc-mutated')
+            # one separator too many or too few: a comma (with blanks) before a closing bracket, after an opening one, doubled, dropped;
+            # a colon doubled or dropped (structure bytes outside strings are found by position in the generated text)
+            struct = [i for i, c in enumerate(b) if c in b'{}[],:' and not in_string(b, i)]
+            for i in rng.sample(struct, min(len(struct), 6)):
+                c = b[i:i + 1]
+                if c in b'}]':
+                    add(b[:i] + rng.choice([b',', b', ', b',\n']) + b[i:], 0, 'doc-separators')
+                elif c in b'{[':
+                    add(b[:i + 1] + b',' + b[i + 1:], 0, 'doc-separators')
+                else:
+                    add(b[:i] + c + b[i:], 0, 'doc-separators')
+                    add(b[:i] + b[i + 1:], 0, 'doc-separators')
             # trailing garbage with the option
             add(b + rng.choice([b'x', b' x', b'{', b'1', b'.5', b'e1', b'\x00', b',', b'//c']), 1, 'doc-trailer')
         return cs
